@@ -84,6 +84,10 @@ dier = st.tuples(st.just('die'), k, status, st.just(True)).map(list)
 # a worker leaving mid-task with the clean / recycle exit status
 dier0 = st.tuples(st.just('die'), k, st.sampled_from([0, 155]),
                   st.just(True)).map(list)
+slow = st.tuples(st.just('slow'), k, st.sampled_from([3.0, 11.0, 12.0, 25.0])).map(list)
+straggle = st.tuples(st.just('straggle'), k,
+                     st.sampled_from([2.0, 11.0, 12.0, 25.0]),
+                     st.booleans()).map(list)
 lastgasp = st.tuples(st.just('lastgasp'), k, status_any).map(list)
 feed = st.one_of(st.tuples(st.just('feed')).map(list),
                  st.just(['feed', None, False, True]))
